@@ -10,8 +10,8 @@ import (
 	kit "github.com/junegunn/fzf/src/verifkit"
 )
 
-var c03TextAlpha = []rune{'a', 'b', 'A', '1', ' ', '/', '-', '_', 'á', '가', ','}
-var c03PatAlpha = []rune{'a', 'b', 'A', '1'}
+var c03TextAlpha = []rune{'a', 'b', 'A', '1', ' ', '/', '-', '_', 'á', 'Á', '가', ','}
+var c03PatAlpha = []rune{'a', 'b', 'A', '1', 'á'}
 
 type c03env struct {
 	r      *kit.Run
